@@ -172,6 +172,7 @@ fn run_trials(ctx: &Ctx, k: usize, n: usize, trials: usize, stage: u64, rk: RngK
             };
             let mut s: ReservoirSampling<u32, CtlRng> = ReservoirSampling::new(k, rng);
             if rk == RngKind::FastAfterClear {
+                beat();
                 for p in 0..(5 * k + 3) as u32 {
                     s.add(u32::MAX - p);
                 }
@@ -181,6 +182,7 @@ fn run_trials(ctx: &Ctx, k: usize, n: usize, trials: usize, stage: u64, rk: RngK
                 let mut br = FastRng::new(seed ^ 0xBA7C_4ED);
                 let mut p = 0u32;
                 while (p as usize) < n {
+                    beat();
                     let x = br.below(10);
                     if x >= 8 {
                         s.add(p);
@@ -198,6 +200,9 @@ fn run_trials(ctx: &Ctx, k: usize, n: usize, trials: usize, stage: u64, rk: RngK
                 }
             } else {
                 for p in 0..n as u32 {
+                    if p & 0x3ff == 0 {
+                        beat();
+                    }
                     s.add(p);
                 }
             }
@@ -301,7 +306,7 @@ fn dispersion(ctx: &Ctx, k: usize, n: usize, trials: usize, stage: u64) -> (f64,
         let mut s: ReservoirSampling<u32, CtlRng> = ReservoirSampling::new(k, CtlRng::fast(seed));
         for p in 0..n as u32 {
             s.add(p);
-            if p & 0xff_ffff == 0 {
+            if p & 0x3ff == 0 {
                 beat();
             }
         }
